@@ -291,7 +291,8 @@ def super_constructor_operators(op_kind):
     lv = ast.VariableDeclaration('l', ast.IntegerConstant(5, kt.Long), is_final=True, var_type=kt.Long)
     sv = ast.VariableDeclaration('s', ast.IntegerConstant(7, kt.Short), is_final=True, var_type=kt.Short)
     widths = ast.FunctionDeclaration('widths', [], kt.Long, ast.Block([lv, sv, ast.Variable('l')]), ast.FunctionDeclaration.FUNCTION)
-    return 'template/super-constructor-%s' % ['comparison', 'equality', 'logical'][op_kind], _program([Base, Derived, widths])
+    wide = ast.FunctionDeclaration('wide', [], kt.Long, ast.IntegerConstant(5, kt.Long), ast.FunctionDeclaration.FUNCTION)
+    return 'template/super-constructor-%s' % ['comparison', 'equality', 'logical'][op_kind], _program([Base, Derived, widths, wide])
 
 
 def vararg_parameter(elem_kind):
@@ -337,6 +338,36 @@ def overriding_members(field_overridable, method_open):
     use = ast.FunctionDeclaration('use', [], kt.Integer, call, ast.FunctionDeclaration.FUNCTION)
     return ('template/overriding-members-%s-%s' % ('openfield' if field_overridable else 'finalfield', 'openmethod' if method_open else 'finalmethod'),
             _program([Base, Derived, Picker, use]))
+
+
+def generic_return_only(in_param, as_local):
+    """fun <T> make(p: Int | T): T = <bottom>;  [fun use() {] val x: String = make<String>(1 | "s") [}]
+    -- with a type parameter that occurs in the return type only, nothing but the declared type of x or the explicit type
+    argument fixes T: at most one of the two may be erased"""
+    T = tp.TypeParameter('T')
+    make = ast.FunctionDeclaration('make', [ast.ParameterDeclaration('p', T if in_param else kt.Integer)], T, ast.BottomConstant(T),
+                                   ast.FunctionDeclaration.FUNCTION, type_parameters=[T])
+    arg = ast.StringConstant('s') if in_param else ast.IntegerConstant(1, kt.Integer)
+    call = ast.FunctionCall('make', [ast.CallArgument(arg)], type_args=[kt.String])
+    x = ast.VariableDeclaration('x', call, is_final=True, var_type=kt.String)
+    if as_local:
+        use = ast.FunctionDeclaration('use', [], kt.Unit, ast.Block([x]), ast.FunctionDeclaration.FUNCTION)
+        prog = _program([make, use])
+    else:
+        prog = _program([make, x])
+    prog.context.add_type(ast.GLOBAL_NAMESPACE + ('make',), 'T', T)
+    return 'template/generic-return-only-%s-%s' % ('inparam' if in_param else 'retonly', 'local' if as_local else 'global'), prog
+
+
+def local_from_global(widen_any, narrow_global):
+    """val g: String | Any = "s";  fun f() { var y: Any = g; y = Any() | "t" }   -- a local variable initialised from a top-level
+    variable (declared before the function) of a narrower type"""
+    g = ast.VariableDeclaration('g', ast.StringConstant('s'), is_final=True, var_type=kt.String if narrow_global else kt.Any)
+    y = ast.VariableDeclaration('y', ast.Variable('g'), is_final=False, var_type=kt.Any)
+    asg = ast.Assignment('y', ast.New(kt.Any, []) if widen_any else ast.StringConstant('t'), None)
+    f = ast.FunctionDeclaration('f', [], kt.Unit, ast.Block([y, asg]), ast.FunctionDeclaration.FUNCTION)
+    return ('template/local-from-global-%s-%s' % ('any' if widen_any else 'str', 'narrow' if narrow_global else 'wide'),
+            _program([g, f]))
 
 
 _BUILDERS = {}
@@ -394,6 +425,10 @@ def all_templates():
             _reg(out, generic_subclass, fw, r)
     for k in range(4):
         _reg(out, name_role, k)
+    for a in (0, 1):
+        for b in (0, 1):
+            _reg(out, generic_return_only, a, b)
+            _reg(out, local_from_global, a, b)
     for a in (0, 1):
         for b in (0, 1):
             _reg(out, overriding_members, a, b)
